@@ -276,9 +276,24 @@ class _N6(ast.NodeTransformer):
         return self.generic_visit(st)
 
 
+class _N7(ast.NodeTransformer):
+    """N7: `with contextlib.suppress(E): BODY`  ->  `try: BODY` / `except E: pass` (what the context manager does)."""
+
+    def visit_With(self, n):
+        self.generic_visit(n)
+        if len(n.items) == 1 and n.items[0].optional_vars is None and isinstance(n.items[0].context_expr, ast.Call):
+            c = n.items[0].context_expr
+            if ast.unparse(c.func) in ("contextlib.suppress", "suppress") and c.args and not c.keywords:
+                typ = c.args[0] if len(c.args) == 1 else ast.Tuple(elts=list(c.args), ctx=ast.Load())
+                h = ast.ExceptHandler(type=typ, name=None, body=[ast.copy_location(ast.Pass(), n)])
+                return ast.copy_location(ast.Try(body=n.body, handlers=[ast.copy_location(h, n)], orelse=[], finalbody=[]), n)
+        return n
+
+
 def normalise(tree):
     if os.environ.get("VERIF_NO_NORMALISE"):
         return tree
+    tree = _N7().visit(tree)
     tree = _materialise_property_factories(tree)
     tree = _N().visit(tree)
     tree = _N5().visit(tree)
